@@ -68,6 +68,7 @@ class Exec(HeapMixin, SpecEvalMixin, ExprMixin, StmtMixin, CallMixin):
         self.refine_seen = set()
         self.global_vals = {}
         self.region_index = {}
+        self.last_locals = {}
         self.regions_used = set()
         self.global_facts = []
         self._boot_state = None
@@ -294,6 +295,8 @@ class Exec(HeapMixin, SpecEvalMixin, ExprMixin, StmtMixin, CallMixin):
             names = dict(params)
             if o.kind == "ret":
                 names["result"] = o.val
+                for gname, (lv, gkind) in c.ghost_out.items():
+                    names[gname] = getattr(self, "last_locals", {}).get(id(o.st), {}).get(lv, VNone)
                 if c.returns is not None:
                     names["result"] = self.check_result_kind(fin, o.val, c.returns)
                 self.apply_hints(fin, c.hints, SpecEnv(fin, names, entry, dict(params)))
